@@ -221,7 +221,11 @@ tokenLoop:
 			tr.Next()
 			fieldBytes = append(fieldBytes, []byte(";")...)
 			structBytes = append(structBytes, fieldBytes...)
-			tr.Next()
+			if !tr.Next() {
+				// the input ends after the field: there is no token to give back
+				structBytes = append(structBytes, '\n')
+				break tokenLoop
+			}
 			t := tr.Token()
 			if t.kind == tokenKindLineComment {
 				structBytes = append(structBytes, ' ')
@@ -365,7 +369,10 @@ func formatType(tr *tokenReader) []byte {
 			typeBytes = append(typeBytes, tr.Token().concrete...)
 		}
 		typeBytes = append(typeBytes, ' ')
-		tr.Next()
+		if !tr.Next() {
+			// the input ends inside the type
+			return typeBytes
+		}
 		valBytes := formatType(tr)
 		typeBytes = append(typeBytes, valBytes...)
 		tr.Next()
@@ -375,7 +382,10 @@ func formatType(tr *tokenReader) []byte {
 		typeBytes = append(typeBytes, t.concrete...)
 		tr.Next()
 		typeBytes = append(typeBytes, tr.Token().concrete...)
-		tr.Next()
+		if !tr.Next() {
+			// the input ends inside the type
+			return typeBytes
+		}
 		valBytes := formatType(tr)
 		typeBytes = append(typeBytes, valBytes...)
 		tr.Next()
